@@ -117,7 +117,9 @@ def setup(ctx):
         for part in (info.composition[1] if info.composition else [info]):
             generate.make_source(part)
     STATE["models"] = models
-    refs = pool_map(ctx, _reference, [(m, ctx.scratch) for m in models], timeout=300)
+    # serially: two concurrent reference builds of one source would race on the compiler memo (the object code
+    # embeds the temporary source name, so two real compiles of the same text differ byte-wise)
+    refs = pool_map(ctx, _reference, [(m, ctx.scratch) for m in models], timeout=300, jobs=1)
     STATE["ref"] = {}
     for m, (st, payload) in zip(models, refs):
         if st != "done":
